@@ -103,3 +103,216 @@ Proof.
   split; [vm_compute; reflexivity|]. split; [vm_compute; reflexivity|]. split; [vm_compute; reflexivity|].
   cbn; repeat split; lia.
 Qed.
+
+(* ====================================================================================================
+   C01R — the clauses that need the real numbers (order, sqrt, division).  Carrier: [OR01], the Coq Reals
+   packaged as an [ops R] (Proofs/ActOneRP.v); the model terms are the SAME polymorphic terms of
+   Model/ActOneR.v and Model/Interface.v that the correspondence executes at the float / Z / Qc instances.
+   ==================================================================================================== *)
+From Coq Require Import Reals Lra Psatz.
+From TV Require Import Model.ActOneR Model.Interface Proofs.ActOneRP Proofs.ActOneRP2.
+Local Open Scope R_scope.
+
+(* Frobenius norm: sqrt of the sum over ALL multi-indices of the squared entry of the denoted tensor *)
+Theorem C01_norm_spec : forall Y : list (core R), chain 1 Y 1 ->
+  norm OR01 Y = sqrt (msum OR01 (shape Y) (fun idx => get OR01 Y idx * get OR01 Y idx)).
+Proof. exact norm_spec. Qed.
+
+(* accuracy (the plain, non-saturated branch):  ||Y1 - Y2||_F / ||Y2||_F  as dense Frobenius norms, ||Y2|| <> 0 *)
+Theorem C01_accuracy_spec : forall Y1 Y2 : list (core R),
+  (2 <= length Y1)%nat -> chain 1 Y1 1 -> chain 1 Y2 1 -> same_shape Y1 Y2 ->
+  msum OR01 (shape Y2) (fun idx => get OR01 Y2 idx * get OR01 Y2 idx) <> 0 ->
+  accuracy OR01 Y1 Y2 =
+    sqrt (msum OR01 (shape Y1) (fun idx => (get OR01 Y1 idx - get OR01 Y2 idx) * (get OR01 Y1 idx - get OR01 Y2 idx)))
+    / sqrt (msum OR01 (shape Y2) (fun idx => get OR01 Y2 idx * get OR01 Y2 idx))
+  /\ 0 < sqrt (msum OR01 (shape Y2) (fun idx => get OR01 Y2 idx * get OR01 Y2 idx)).
+Proof. exact accuracy_spec. Qed.
+Theorem C01_accuracy_zero_iff : forall Y1 Y2 : list (core R),
+  (2 <= length Y1)%nat -> chain 1 Y1 1 -> chain 1 Y2 1 -> same_shape Y1 Y2 -> frob2 Y2 <> 0 ->
+  (accuracy OR01 Y1 Y2 = 0 <-> dist2 Y1 Y2 = 0).
+Proof. exact accuracy_zero_iff. Qed.
+
+(* accuracy_on_data: the -1 sentinel when every reference value is 0; otherwise ||get_many(Y,I) - y|| / ||y|| *)
+Theorem C01_accuracy_on_data_spec : forall (Y : list (core R)) (I : list (list nat)) (y : list R),
+  length I = length y ->
+  (Forall (fun x => x = 0) y -> accuracy_on_data OR01 Y I y = -1) /\
+  (Exists (fun x => x <> 0) y ->
+     accuracy_on_data OR01 Y I y =
+       sqrt (bsum OR01 (length y) (fun j => (get OR01 Y (nth j I []) - nth j y 0) * (get OR01 Y (nth j I []) - nth j y 0)))
+       / sqrt (bsum OR01 (length y) (fun j => nth j y 0 * nth j y 0))
+     /\ 0 < sqrt (bsum OR01 (length y) (fun j => nth j y 0 * nth j y 0))).
+Proof. exact accuracy_on_data_spec. Qed.
+
+(* effective rank: r_1 for d = 2; for d >= 3 THE non-negative root x of  a x^2 + b x = size(Y),  where
+   a = n_1 + ... + n_{d-2},  b = r_0 n_0 + n_{d-1} r_d : the number of parameters of a tensor of the same shape whose
+   interior ranks all equal x.  Consequently a tensor whose interior ranks all equal r has effective rank r. *)
+Theorem C01_erank_d2 : forall Y : list (core R), length Y = 2%nat -> erank OR01 Y = INR (nth 1 (ranks Y) O).
+Proof. exact erank_d2. Qed.
+Theorem C01_erank_spec : forall Y : list (core R), (3 <= length Y)%nat -> Forall (fun G => 1 <= cn G)%nat Y ->
+  0 <= erank OR01 Y /\
+  INR (er_a Y) * erank OR01 Y * erank OR01 Y + INR (er_b Y) * erank OR01 Y = INR (size Y) /\
+  (forall x, 0 <= x -> INR (er_a Y) * x * x + INR (er_b Y) * x = INR (size Y) -> x = erank OR01 Y).
+Proof. exact erank_spec. Qed.
+Theorem C01_erank_coefficients : forall Y : list (core R),
+  er_a Y = fold_right Nat.add O (firstn (length Y - 2) (skipn 1 (shape Y))) /\
+  er_b Y = (nth 0 (ranks Y) O * nth 0 (shape Y) O + nth (length Y - 1) (shape Y) O * nth (length Y) (ranks Y) O)%nat.
+Proof. intros; split; reflexivity. Qed.
+Theorem C01_erank_uniform : forall (G0 Gl : core R) (mids : list (core R)) (r : nat),
+  mids <> [] -> Forall (fun G => 1 <= cn G)%nat mids -> (1 <= r)%nat ->
+  cr1 G0 = 1%nat -> cr2 G0 = r -> Forall (fun G => cr1 G = r /\ cr2 G = r) mids -> cr1 Gl = r ->
+  erank OR01 (G0 :: mids ++ [Gl]) = INR r.
+Proof. exact erank_uniform. Qed.
+
+(* uniform mean (default weights ones(k)/k):  (sum of all entries) / (number of entries of the dense array) *)
+Theorem C01_mean_uniform_spec : forall Y : list (core R), chain 1 Y 1 ->
+  mean OR01 Y None true = msum OR01 (shape Y) (get OR01 Y) / INR (length (full OR01 Y)).
+Proof. exact mean_uniform_spec. Qed.
+Theorem C01_mean_count_pos : forall Y : list (core R), Forall (fun G => 1 <= cn G)%nat Y -> 0 < INR (length (full OR01 Y)).
+Proof. exact count_pos. Qed.
+Theorem C01_mean_default : forall (T : Type) (K : ops T) (Y : list (core T)), mean K Y None true = mean_u K Y.
+Proof. exact @mean_default_mean_u. Qed.
+
+(* interface of Model/Interface.v (what the correspondence executes) with an index and norm=None, over any
+   commutative ring: it is the list of partial products; entry a of the k-th right vector is
+   (G_k[i_k] ... G_{d-1}[i_{d-1}])[a,0], the k-th left vector is the row vector [1] G_0[i_0] ... G_{k-1}[i_{k-1}] *)
+Theorem C01_interface_none_right : forall (T : Type) (K : ops T), rng K -> forall Y idx, inb (shape Y) idx ->
+  interface K Y None (Some idx) NormNone false = phi_r K Y idx.
+Proof. exact @interface_none_right. Qed.
+Theorem C01_interface_none_left : forall (T : Type) (K : ops T), rng K -> forall Y idx, inb (shape Y) idx ->
+  interface K Y None (Some idx) NormNone true = phi_l K Y idx.
+Proof. exact @interface_none_left. Qed.
+Theorem C01_interface_right_entry : forall (T : Type) (K : ops T), rng K -> forall Y idx k a,
+  wf 1 Y idx -> (k <= length Y)%nat -> (a < nth k (ranks Y) O)%nat ->
+  nth a (nth k (interface K Y None (Some idx) NormNone false) []) (o0 K) =
+  dget K (skipn k Y) (skipn k idx) (nth k (ranks Y) O) a O.
+Proof. exact @interface_right_entry. Qed.
+Theorem C01_interface_left_entry : forall (T : Type) (K : ops T), rng K -> forall Y idx k,
+  wf 1 Y idx -> (k <= length Y)%nat ->
+  nth k (interface K Y None (Some idx) NormNone true) [] = run K [o1 K] (firstn k Y) (firstn k idx).
+Proof. exact @interface_left_entry. Qed.
+
+(* norm='natural' (any P, any i, both sweeps): vector k of the result is vector k of the un-normalised interface
+   divided by the product of the mode sizes swept so far (n_k ... n_{d-1} from the right, n_0 ... n_{k-1} from the left);
+   the factor is positive when all mode sizes are >= 1 *)
+Theorem C01_interface_natural_right : forall Y P i k, (k <= length Y)%nat ->
+  nth k (interface OR01 Y P i NormNatural false) [] =
+  vscale OR01 (/ INR (prodn (skipn k (shape Y)))) (nth k (interface OR01 Y P i NormNone false) []).
+Proof. exact interface_natural_right. Qed.
+Theorem C01_interface_natural_left : forall Y P i k, (k <= length Y)%nat ->
+  nth k (interface OR01 Y P i NormNatural true) [] =
+  vscale OR01 (/ INR (prodn (firstn k (shape Y)))) (nth k (interface OR01 Y P i NormNone true) []).
+Proof. exact interface_natural_left. Qed.
+Theorem C01_interface_natural_factor_pos : forall (Y : list (core R)) k, Forall (fun G => 1 <= cn G)%nat Y ->
+  0 < / INR (prodn (skipn k (shape Y))) /\ 0 < / INR (prodn (firstn k (shape Y))).
+Proof. exact natural_factor_pos. Qed.
+
+(* norm='linalg' (any P, any i, both sweeps): wherever the un-normalised vector u_k is non-zero, the returned vector is
+   u_k / ||u_k||_2 : a positive multiple of the true partial product, of Euclidean norm 1.  (Where u_k = 0 the code
+   divides 0 by 0; no claim.)  The boundary vector ([1]) is returned as it is. *)
+Theorem C01_interface_linalg_right : forall Y P i k, (k <= length Y)%nat ->
+  ssq (nth k (interface OR01 Y P i NormNone false) []) <> 0 ->
+  nth k (interface OR01 Y P i NormLinalg false) [] =
+  vscale OR01 (/ sqrt (ssq (nth k (interface OR01 Y P i NormNone false) [])))
+              (nth k (interface OR01 Y P i NormNone false) []) /\
+  0 < / sqrt (ssq (nth k (interface OR01 Y P i NormNone false) [])) /\
+  ssq (nth k (interface OR01 Y P i NormLinalg false) []) = 1.
+Proof. exact interface_linalg_right. Qed.
+Theorem C01_interface_linalg_left : forall Y P i k, (1 <= k <= length Y)%nat ->
+  ssq (nth k (interface OR01 Y P i NormNone true) []) <> 0 ->
+  nth k (interface OR01 Y P i NormLinalg true) [] =
+  vscale OR01 (/ sqrt (ssq (nth k (interface OR01 Y P i NormNone true) [])))
+              (nth k (interface OR01 Y P i NormNone true) []) /\
+  0 < / sqrt (ssq (nth k (interface OR01 Y P i NormNone true) [])) /\
+  ssq (nth k (interface OR01 Y P i NormLinalg true) []) = 1.
+Proof. exact interface_linalg_left. Qed.
+Theorem C01_interface_boundary : forall Y P i nm,
+  nth (length Y) (interface OR01 Y P i nm false) [] = [1] /\ nth 0 (interface OR01 Y P i nm true) [] = [1].
+Proof. exact interface_boundary. Qed.
+(* ssq is the squared Euclidean norm; vscale c v multiplies every entry by c *)
+Theorem C01_ssq_vscale_meaning : forall (v : list R) c,
+  ssq v = bsum OR01 (length v) (fun j => nth j v 0 * nth j v 0) /\ vscale OR01 c v = map (fun x => c * x) v.
+Proof. intros; split; [apply ssq_bsum|reflexivity]. Qed.
+
+(* reported shape / ranks / size of a well-formed tensor: lengths, boundary ranks 1, ranks[k] / ranks[k+1] are the left /
+   right rank of core k, size = sum_k ranks[k] * shape[k] * ranks[k+1] *)
+Theorem C01_props_spec : forall (T : Type) (Y : list (core T)), chain 1 Y 1 ->
+  length (shape Y) = length Y /\ length (ranks Y) = S (length Y) /\
+  nth 0 (ranks Y) O = 1%nat /\ nth (length Y) (ranks Y) O = 1%nat /\
+  (forall k, (k < length Y)%nat -> nth k (shape Y) O = cn (nth k Y (mk_core 0 0 0 [])) /\
+                             nth k (ranks Y) O = cr1 (nth k Y (mk_core 0 0 0 [])) /\
+                             nth (S k) (ranks Y) O = cr2 (nth k Y (mk_core 0 0 0 []))) /\
+  size Y = fold_right Nat.add O (map (fun k => nth k (ranks Y) O * nth k (shape Y) O * nth (S k) (ranks Y) O)%nat
+                                   (seq 0 (length Y))).
+Proof. exact @props_spec. Qed.
+
+(* ---- non-vacuity of the hypotheses of the Reals theorems: concrete tensors, concrete values ---- *)
+Definition exRa : list (core R) := [mk_core 1 2 1 [[[1]; [1]]]; mk_core 1 1 1 [[[3]]]].        (* dense: [[3],[3]] *)
+Definition exRb : list (core R) := [mk_core 1 2 1 [[[1]; [2]]]; mk_core 1 1 1 [[[3]]]].        (* dense: [[3],[6]] *)
+Example C01R_example_norm_accuracy :
+  chain 1 exRa 1 /\ chain 1 exRb 1 /\ same_shape exRa exRb /\ (2 <= length exRa)%nat /\ frob2 exRb <> 0 /\
+  norm OR01 exRb = sqrt 45 /\ accuracy OR01 exRa exRb = sqrt 9 / sqrt 45 /\ erank OR01 exRb = 1 /\
+  mean OR01 exRb None true = 9 / 2.
+Proof.
+  assert (C1 : chain 1 exRa 1) by (cbn; auto). assert (C2 : chain 1 exRb 1) by (cbn; auto).
+  assert (HS : same_shape exRa exRb) by (repeat constructor).
+  assert (Hd : (2 <= length exRa)%nat) by (cbn; lia).
+  assert (F : frob2 exRb = 45) by (unfold frob2, exRb; cbn; lra).
+  assert (D : dist2 exRa exRb = 9) by (unfold dist2, exRa, exRb; cbn; lra).
+  assert (Hnz : frob2 exRb <> 0) by (rewrite F; lra).
+  split; [exact C1|]. split; [exact C2|]. split; [exact HS|]. split; [exact Hd|]. split; [exact Hnz|].
+  split; [rewrite (norm_spec exRb C2); now rewrite F|].
+  split; [destruct (accuracy_spec exRa exRb Hd C1 C2 HS Hnz) as [E _]; now rewrite E, D, F|].
+  split; [rewrite C01_erank_d2 by reflexivity; reflexivity|].
+  rewrite (C01_mean_uniform_spec exRb C2). cbn. lra.
+Qed.
+Example C01R_example_accuracy_on_data :
+  accuracy_on_data OR01 exRa [[0; 0]; [1; 0]]%nat [0; 0] = -1 /\
+  accuracy_on_data OR01 exRa [[0; 0]; [1; 0]]%nat [0; 4] = sqrt 10 / sqrt 16.
+Proof.
+  split.
+  - apply (C01_accuracy_on_data_spec exRa [[0; 0]; [1; 0]]%nat [0; 0] eq_refl). repeat constructor.
+  - destruct (proj2 (C01_accuracy_on_data_spec exRa [[0; 0]; [1; 0]]%nat [0; 4] eq_refl)) as [E _].
+    + apply Exists_cons_tl, Exists_cons_hd. lra.
+    + rewrite E. f_equal; f_equal; cbn; lra.
+Qed.
+(* d = 3: a uniform profile (1,2,2,1) has effective rank 2; the profile (1,2,3,1) on shape (2,2,2) has the irrational
+   effective rank sqrt(12) - 1 (the root of 2 x^2 + 4 x = 22) *)
+Definition exRc : list (core R) :=
+  [mkcore 1 2 2 (fun _ _ _ => 1); mkcore 2 3 2 (fun _ _ _ => 1); mkcore 2 2 1 (fun _ _ _ => 1)].
+Definition exRd : list (core R) :=
+  [mkcore 1 2 2 (fun _ _ _ => 1); mkcore 2 2 3 (fun _ _ _ => 1); mkcore 3 2 1 (fun _ _ _ => 1)].
+Example C01R_example_erank :
+  (3 <= length exRc)%nat /\ Forall (fun G => 1 <= cn G)%nat exRc /\ chain 1 exRc 1 /\ erank OR01 exRc = 2 /\
+  (3 <= length exRd)%nat /\ Forall (fun G => 1 <= cn G)%nat exRd /\ chain 1 exRd 1 /\ erank OR01 exRd = sqrt 12 - 1.
+Proof.
+  assert (Lc : (3 <= length exRc)%nat) by (cbn; lia). assert (Ld : (3 <= length exRd)%nat) by (cbn; lia).
+  assert (Fc : Forall (fun G => 1 <= cn G)%nat exRc) by (repeat constructor).
+  assert (Fd : Forall (fun G => 1 <= cn G)%nat exRd) by (repeat constructor).
+  split; [exact Lc|]. split; [exact Fc|]. split; [cbn; auto|]. split.
+  { symmetry. apply (proj2 (proj2 (C01_erank_spec exRc Lc Fc))); [lra|cbn; lra]. }
+  split; [exact Ld|]. split; [exact Fd|]. split; [cbn; auto|].
+  symmetry. pose proof (sqrt_sqrt 12 ltac:(lra)) as Hq. pose proof (sqrt_pos 12) as Hp.
+  assert (1 <= sqrt 12) by nra.
+  apply (proj2 (proj2 (C01_erank_spec exRd Ld Fd))); [lra|cbn; nra].
+Qed.
+(* interfaces of exRb at the index (1,0): un-normalised right vectors [6],[3],[1]; natural: [6/(2*1)], [3/1], [1];
+   linalg: [1],[1],[1] *)
+Example C01R_example_interface :
+  wf 1 exRb [1; 0]%nat /\
+  interface OR01 exRb None (Some [1; 0]%nat) NormNone false = [[6]; [3]; [1]] /\
+  ssq (nth 0 (interface OR01 exRb None (Some [1; 0]%nat) NormNone false) []) <> 0 /\
+  nth 0 (interface OR01 exRb None (Some [1; 0]%nat) NormNatural false) [] = [3] /\
+  nth 0 (interface OR01 exRb None (Some [1; 0]%nat) NormLinalg false) [] = [1] /\
+  nth 1 (interface OR01 exRb None (Some [1; 0]%nat) NormLinalg true) [] = [1].
+Proof.
+  assert (U : interface OR01 exRb None (Some [1; 0]%nat) NormNone false = [[6]; [3]; [1]]) by (cbn; repeat f_equal; lra).
+  assert (UL : nth 1 (interface OR01 exRb None (Some [1; 0]%nat) NormNone true) [] = [2]) by (cbn; repeat f_equal; lra).
+  split; [cbn; lia|]. split; [exact U|]. split; [rewrite U; cbn; lra|]. split; [|split].
+  - rewrite C01_interface_natural_right by (cbn; lia). rewrite U. cbn. f_equal. lra.
+  - destruct (C01_interface_linalg_right exRb None (Some [1; 0]%nat) O) as [E _]; [cbn; lia|rewrite U; cbn; lra|].
+    rewrite E, U. cbn [nth ssq vscale map]. r01. replace (6 * 6 + 0) with (6 * 6) by ring. rewrite sqrt_square by lra.
+    f_equal. field.
+  - destruct (C01_interface_linalg_left exRb None (Some [1; 0]%nat) 1%nat) as [E _]; [cbn; lia|rewrite UL; cbn; lra|].
+    rewrite E, UL. cbn [nth ssq vscale map]. r01. replace (2 * 2 + 0) with (2 * 2) by ring. rewrite sqrt_square by lra.
+    f_equal. field.
+Qed.
